@@ -54,6 +54,20 @@ func (x *Exec) ceval(e *CExpr, env *CEnv) *Val {
 	case CIdent:
 		return x.cident(e.Name, env)
 	case CSel:
+		if e.X.Kind == CIdent {
+			if _, bound := env.names[e.X.Name]; !bound {
+				for _, imp := range x.e.pkg.Types.Imports() {
+					if imp.Name() == e.X.Name {
+						switch o := imp.Scope().Lookup(e.Name).(type) {
+						case *types.Var:
+							return x.globalVar(o)
+						case *types.Const:
+							return x.constVal(o.Val(), o.Type())
+						}
+					}
+				}
+			}
+		}
 		base := x.ceval(e.X, env)
 		return x.csel(base, e.Name, env)
 	case CIndex:
@@ -95,6 +109,10 @@ func (x *Exec) ghostSort(ty string) string {
 		return SArrI
 	case "map[int]bool", "set":
 		return SArrB
+	case "map[int]map[int]int":
+		return SArrAI
+	case "map[int]map[int]bool":
+		return SArrAB
 	}
 	cfail("unknown ghost type %s", ty)
 	return ""
@@ -206,6 +224,12 @@ func (x *Exec) cindex(base, idx *Val, env *CEnv) *Val {
 	switch base.K {
 	case KArr:
 		t := Select(base.S, idx.S)
+		if base.Sort == SArrAI {
+			return ArrV(t, SArrI)
+		}
+		if base.Sort == SArrAB {
+			return ArrV(t, SArrB)
+		}
 		if strings.HasSuffix(base.Sort, "Bool)") {
 			return BoolV(t)
 		}
